@@ -35,5 +35,21 @@ PROPS["C17"] = dict(
     assumptions=["route URLs are non-empty", "reference resolver encodes the property statement"],
 )
 
+PROPS["C06"] = dict(
+    bin="race", level="fault_enumeration", shards={"quick": 16, "thorough": 16},
+    timeout={"quick": 600, "thorough": 3000},
+    rule=("NAL/AU sequences (H.264 types 1-23 except 12, H.265 types 0-40, AAC AUs; size classes tiny/MTU/boundary{1399..1401,65535,65536,70000}/"
+          "1-2 byte) packetised by the harness's own RFC 6184/7798/3640 packetiser with PRNG-chosen single/STAP-A|AP/FU-A|FU per unit, "
+          "sequence numbers starting near 65535; fed to rtp.NewDemuxer with a recording FrameWriter and a sentinel unit. Loss cases: 2-4 "
+          "fragmented units, faults = every single-loss position, pairs, runs, adjacent swaps, random multi-loss. A case is distinct by "
+          "(codec, size class, set of packet kinds used, unit count, seq wrap) resp. (codec, fault pattern by fragment kind, unit count)"),
+    level_text=("Generated workload + fault enumeration (loss/reorder positions inside fragmented units) against the real depacketisers; "
+                "oracle = list equality with the source units / only-whole-units-in-order under loss, PTS arithmetic per RTP timestamp"),
+    level_note="trusted: the harness packetiser (kit/rtpgen.go); DTS is not judged (not in the statement); RTCP SR mid-stream and RTP timestamp wrap are unjudged",
+    technique="runtime monitor: differential list-equality oracle over generated packetisations + enumerated loss/swap faults",
+    assumptions=["parameter sets are supplied through the SDP so the depacketiser is ready from the first packet",
+                 "filler data NAL (type 12) is excluded: dropped by design"],
+)
+
 # properties not claimed, with the reason (kept current)
 NOT_APPLICABLE = {}
